@@ -30,10 +30,10 @@ FORMATS = {
     "poetry": {"level": "struct", "files": [], "theorems": ["poetry_struct_exact"], "what": "poetry.lock"},
     "nugetlock": {"level": "struct", "files": [], "theorems": ["nuget_struct_exact"], "what": "packages.lock.json"},
     "pipfile": {"level": "struct", "files": [], "theorems": ["pipfile_struct_exact"], "what": "Pipfile.lock"},
-    "packagelock": {"level": "struct", "files": ["Formats/Structs2.v", "Formats/Structs2Proofs.v"], "theorems": ["packagelock_struct_exact"],
-                    "what": "package-lock.json (theorem: v2/v3 packages map; v1 nested dependencies: correspondence + oracle only)"},
+    "packagelock": {"level": "struct", "files": ["Formats/Structs2.v", "Formats/Structs2Proofs.v"], "theorems": ["packagelock_struct_exact", "packagelock_v1_struct_exact"],
+                    "what": "package-lock.json v1 (nested dependencies tree), v2, v3 (packages map); registry versions (aliases, file:, git: correspondence only)"},
     "gomod": {"level": "struct", "files": [], "theorems": ["gomod_struct_exact"],
-              "what": "go.mod (theorem: require + go directive; replace/toolchain directives: correspondence only)"},
+              "what": "go.mod (require, replace with/without version and local paths, go and toolchain directives; structure level: x/mod/modfile trusted)"},
 }
 ALL_FORMATS = ["dpkg status", "apk installed", "requirements.txt", "go.mod", "Cargo.lock", "package-lock.json v1-v3",
                "composer.lock", "Gemfile.lock", "gradle.lockfile", "poetry.lock", "Pipfile.lock", "packages.lock.json"]
@@ -146,15 +146,22 @@ def replay_known(ctx, binp, entry):
     if rc != 0 or not m or not mod:
         raise RuntimeError("known-finding replay failed: " + out[-1500:])
     fmt = w["format"]
+    impl_line = [l for l in out.splitlines() if l.startswith("implementation: ")]
+    impl = json.loads(impl_line[0][len("implementation: "):]) if impl_line else {}
+    if FORMATS.get(fmt, {}).get("full_spec"):
+        terms = ("[if %s_case_model_ok c then 1 else 0; if %s_case_full_spec_ok c then 1 else 0; if %s_case_wf_outside_D c then 1 else 0]%%nat"
+                 % (fmt, fmt, fmt))
+    else:
+        terms = "[if %s_case_model_ok c then 1 else 0; 1; 0]%%nat" % fmt
     v = ("From Coq Require Import List NArith Bool.\nFrom Scalibr Require Import Formats.Lines %s.\nImport ListNotations.\n"
-         "Definition c : %s_case := %s.\n"
-         "Definition flags := Eval vm_compute in [if %s_case_model_ok c then 1 else 0; if %s_case_full_spec_ok c then 1 else 0; "
-         "if %s_case_wf_outside_D c then 1 else 0]%%nat.\nPrint flags.\n"
-         % (mod[0][len("coq-module: "):], fmt, m[0][len("coq-case: "):], fmt, fmt, fmt))
+         "Definition c : %s_case := %s.\nDefinition flags := Eval vm_compute in %s.\nPrint flags.\n"
+         % (mod[0][len("coq-module: "):], fmt, m[0][len("coq-case: "):], terms))
     rc, out2 = ctx.run_cases("C03_known_%s" % entry["id"].replace("-", "_"), v)
     flags = vlib.parse_printed_list(out2, "flags")
     if rc != 0 or flags is None:
         raise RuntimeError("known-finding evaluation failed: " + out2[-1500:])
+    if w.get("regression_expect_kind"):
+        flags[1] = 1 if impl.get("kind") == w["regression_expect_kind"] else 0
     return {"model_agrees": flags[0] == 1, "still_fails": flags[1] == 0, "wf_outside_D": flags[2] == 1, "implementation": out.splitlines()[2] if len(out.splitlines()) > 2 else ""}
 
 
